@@ -21,6 +21,24 @@ The translator reads the ast; no function body is compared with a reference text
   def f(..): ..       undecorated, not async; each is translated to `g_f` (callees first).  Required: open_circuit_impedance,
                       element_impedance, open_circuit_dc_resistance, element_dc_resistance (impedance.py), state_space_model
                       (state_space_model.py).  Recursion is refused.
+                      EXPANSION.  A function other than the required ones that has no translation of its own under the rules
+                      below (a parameter without a usable annotation: a bare function, `list`, `int`; a str parameter used as
+                      the key of float(c.value[key]); ..) gets no definition g_f: every call f(args) is EXPANDED in place.  The
+                      arguments are evaluated first, in Python's order (positional, then keywords; no defaults, * or **), then
+                      the body is translated as statements of the caller with the parameters bound to the argument values
+                      (annotations are not used); `return E` must be its last statement, and the value of the call is E.  The
+                      locals of an expansion get Coq names of their own (x'<k>, k the number of the expansion), so nothing of
+                      the caller is captured.  Arguments that exist at translation time only (STATIC values):
+                        lambda X, ..: E            may only be CALLED in the helper: F(a, ..) is E with X, .. standing for the
+                                                   values of a, .. (computed at the call, in order) and the other names read in
+                                                   the scope where the lambda was written (which cannot change in between)
+                        S.c_row_voltage | ..       a bound row method of a NodalStateSpaceModel S (a name): F(x) is S.c_row_voltage(x)
+                        [(A, B, ..), ..]           a list display of tuples of values (static or not): may only be iterated by
+                                                   `for X, Y, .. in NAME: <body>`, which is UNROLLED: one copy of the body per
+                                                   tuple, in order, X, Y, .. standing for its components
+                        'text'                     a str constant keeps its text: float(c.value[NAME]) is float(c.value['text'])
+                      A function that is neither translated on its own nor expanded anywhere is refused.  A helper may not
+                      return a static value; recursion through expansions is refused.
 === parameters ===     NAME: T [= default]   (no *args, **kw, keyword-only, positional-only; annotation required)
   T = Circuit -> Circuit (record of Gen/CircuitGen.v) | Network -> network C | str -> label | float -> R | list[str] -> list label
     | np.ndarray -> list R (a 1-D array of floats) | Callable[[T1, .., Tn], complex] -> T1 -> .. -> Tn -> res (option C)
@@ -202,6 +220,10 @@ def balanced(s):
             if d < 0:
                 return False
     return d == 0
+
+
+class ConstLabel(str):
+    """the term of a str constant handed to an expanded helper; .const is the Python string"""
 
 
 def label_lit(s):
@@ -438,6 +460,9 @@ class Module:
         self.active = []
         self.out = []
         self.checked = set()
+        self.required = REQUIRED.get(relparts, ())
+        self.inline_only = {}      # name -> the Unsupported raised by the standalone translation
+        self.inlined = set()
         tree = parse(self.path)
         body = list(tree.body)
         if body and isinstance(body[0], ast.Expr) and isinstance(body[0].value, ast.Constant) and isinstance(body[0].value.value, str):
@@ -474,8 +499,26 @@ class Module:
 
     def translate_all(self):
         for name in self.defs:
-            self.function(name, None)
+            self.standalone(name, None)
+        for name, err in self.inline_only.items():
+            if name not in self.inlined:
+                raise err              # a function that is neither translatable on its own nor expanded anywhere
         return self.out
+
+    def standalone(self, name, node):
+        """the FnInfo of g_<name>, or None when the function has no standalone translation (it is then expanded at its call
+        sites, FnCompiler.inline_call); the required functions must have one"""
+        if name in self.inline_only:
+            return None
+        n_out, n_active = len(self.out), len(self.active)
+        try:
+            return self.function(name, node)
+        except Unsupported as e:
+            if name in self.required or name in self.active[:n_active]:
+                raise
+            del self.active[n_active:]
+            self.inline_only[name] = e
+            return None
 
     def external(self, key, node):
         spec = EXTERNAL[key]
@@ -539,6 +582,8 @@ class FnCompiler:
         self.m, self.fd, self.path = mod, fd, mod.path
         self.counter = 0
         self.fresh_lists = set()
+        self.scopes = 0            # number of expansions (inlined helpers, applied lambdas) so far
+        self.suffix = ''           # distinguishes the Coq names of the locals of an expansion: x'<k>
 
     def U(self, node, msg):
         return U(node, self.path, f'{self.fd.name}: {msg}')
@@ -552,7 +597,7 @@ class FnCompiler:
             raise self.U(node, f'name {name} is not an ASCII identifier')
         if name in self.m.names:
             raise self.U(node, f'local {name} rebinds a module-level name')
-        return name + "'"
+        return name + "'" + self.suffix
 
     # ---------------- the function
     def compile(self):
@@ -668,6 +713,9 @@ class FnCompiler:
     def for_loop(self, st, env, items, in_loop):
         if st.orelse or isinstance(st, ast.AsyncFor):
             raise self.U(st, 'for ... else / async for')
+        if isinstance(st.iter, ast.Name) and st.iter.id in env and isinstance(env[st.iter.id][1], tuple) \
+                and env[st.iter.id][1][:2] == ('static', 'list'):
+            return self.unrolled_loop(st, env, items, in_loop)
         if not isinstance(st.target, ast.Name):
             raise self.U(st, 'loop target that is not a name')
         v = st.target.id
@@ -708,6 +756,35 @@ class FnCompiler:
             body = '\n'.join(f'let {x} := {e} in' for _, x, e in sub) + f'\n{cacc1}'
             items.append(('let', cacc, f'fold_left (fun {cacc} {cv} =>\n{indent(body.strip(), 2)}) {par(it)} {cacc}'))
         env[acc] = (cacc, ty)
+
+    def unrolled_loop(self, st, env, items, in_loop):
+        """for A, B, .. in ROWS: <body>   with ROWS a static list of tuples (a parameter of an expanded helper): one copy of the
+        body per tuple, in order, with the targets bound to its components; the targets are not usable after the loop"""
+        rows = env[st.iter.id][1][2]
+        tg = st.target
+        if not (isinstance(tg, ast.Tuple) and all(isinstance(x, ast.Name) for x in tg.elts)
+                and len({x.id for x in tg.elts}) == len(tg.elts)):
+            raise self.U(st, 'loop over a list of tuples whose target is not a tuple of distinct names')
+        names = [x.id for x in tg.elts]
+        for v in names:
+            if v in env or v in self.m.names:
+                raise self.U(st, f'loop variable {v} rebinds a local / parameter / module-level name')
+        assigned = {x.id for s_ in st.body for x in ast.walk(s_) if isinstance(x, ast.Name) and isinstance(x.ctx, ast.Store)}
+        if assigned & set(names) or st.iter.id in assigned:
+            raise self.U(st, 'the loop body assigns a loop variable / the list it runs over')
+        for row in rows:
+            comps = row[1][2]
+            if len(comps) != len(names):
+                raise self.U(st, 'tuple of the wrong length for the loop targets')
+            for v, c in zip(names, comps):
+                env[v] = c
+            before = set(env)
+            for s_ in st.body:
+                self.stmt(s_, env, items, in_loop)
+            for k in set(env) - before:            # locals of the body are not usable after it
+                del env[k]
+        for v in names:
+            env.pop(v, None)
 
     # ---------------- expressions
     def bound(self, e, ty, items):
@@ -867,6 +944,8 @@ class FnCompiler:
         if isinstance(f, ast.Name):
             if f.id in env:
                 ft = env[f.id][1]
+                if isinstance(ft, tuple) and ft[0] == 'static':
+                    return self.static_call(ft, n, env, items)
                 if not (isinstance(ft, tuple) and ft[0] == 'fun'):
                     raise self.U(n, f'call of {f.id}, which is a {ft}')
                 if n.keywords or len(n.args) != len(ft[1]) or any(isinstance(x, ast.Starred) for x in n.args):
@@ -880,7 +959,9 @@ class FnCompiler:
             if meaning is None and f.id == 'float':
                 return self.float_call(n, env, items)
             if meaning == 'def':
-                info = m.function(f.id, n)
+                info = m.standalone(f.id, n)
+                if info is None:
+                    return self.inline_call(f.id, n, env, items)
                 params = [(p, d) for p, _, d in info.params]
                 slots, order = self.match_args(n, params, f.id)
                 vals = self.eval_args(slots, order, {p: t for p, t, _ in info.params}, env, items)
@@ -915,6 +996,107 @@ class FnCompiler:
                 return self.bound(f'py_state_space.NodalStateSpaceModel_{f.attr} C {par(v)} {par(a)}', 'arrlike', items)
             raise self.U(n, f'method .{f.attr} of a {vt} is outside the subset')
         raise self.U(n, 'call outside the subset')
+
+    # ---------------- expansion of helpers that have no standalone translation
+    def new_scope(self):
+        self.scopes += 1
+        return str(self.scopes)
+
+    def arg_value(self, node, env, items):
+        """the value of an argument of an expanded helper: an ordinary (term, type), or a STATIC value ('<static>', ('static',
+        kind, ..)) that exists at translation time only: a lambda (with the environment it closes over), a bound row method of
+        a NodalStateSpaceModel, a list display of tuples of such values"""
+        m = self.m
+        if isinstance(node, ast.Lambda):
+            a = node.args
+            if a.vararg or a.kwarg or a.kwonlyargs or a.posonlyargs or a.defaults or len({x.arg for x in a.args}) != len(a.args):
+                raise self.U(node, 'lambda parameter list outside the subset')
+            return ('<static>', ('static', 'lambda', node, dict(env)))
+        if isinstance(node, ast.Attribute) and node.attr in ROW_METHODS and isinstance(node.value, ast.Name) and node.value.id in env \
+                and env[node.value.id][1] == 'nssm':
+            if node.attr not in m.nodal_methods:
+                raise self.U(node, f'NodalStateSpaceModel has no plain method {node.attr}')
+            return ('<static>', ('static', 'method', env[node.value.id][0], node.attr))
+        if isinstance(node, ast.List) and node.elts and all(isinstance(x, ast.Tuple) for x in node.elts):
+            rows = []
+            for tp in node.elts:
+                if any(isinstance(x, ast.Starred) for x in tp.elts):
+                    raise self.U(node, 'starred tuple element')
+                rows.append(('<static>', ('static', 'tuple', [self.arg_value(x, env, items) for x in tp.elts])))
+            return ('<static>', ('static', 'list', rows))
+        if isinstance(node, ast.Constant) and isinstance(node.value, str):
+            t = ConstLabel(label_lit(node.value))
+            t.const = node.value
+            return (t, 'label')
+        return self.ex(node, env, items)
+
+    def inline_call(self, name, n, env, items):
+        """f(args) for a function f of this module that has no standalone translation: the arguments are evaluated in Python's
+        order (static values: see arg_value), then the body is translated in place with the parameters bound to them; the
+        locals of the expansion get Coq names of their own"""
+        m = self.m
+        fd = m.defs[name]
+        if name in m.active:
+            raise self.U(n, f'recursive call of {name}')
+        a = fd.args
+        if a.vararg or a.kwarg or a.kwonlyargs or a.posonlyargs or a.defaults or a.kw_defaults:
+            raise self.U(fd, f'{name} (expanded at its call sites): parameter kinds / defaults outside the subset')
+        if len({x.arg for x in a.args}) != len(a.args):
+            raise self.U(fd, f'{name}: duplicate parameter')
+        slots, order = self.match_args(n, [(x.arg, False) for x in a.args], name)
+        inner = {}
+        for p in order:
+            inner[p] = self.arg_value(slots[p], env, items)
+        for p in inner:
+            if p in m.names:
+                raise self.U(fd, f'{name}: parameter {p} rebinds a module-level name')
+        body = list(fd.body)
+        if body and isinstance(body[0], ast.Expr) and isinstance(body[0].value, ast.Constant) and isinstance(body[0].value.value, str):
+            body = body[1:]
+        if not body or not isinstance(body[-1], ast.Return) or body[-1].value is None:
+            raise self.U(fd, f'{name}: the last statement is not `return E`')
+        saved = (self.params, self.fresh_lists, self.suffix)
+        self.params, self.fresh_lists, self.suffix = set(inner), set(), self.new_scope()
+        m.active.append(name)
+        try:
+            for st in body[:-1]:
+                self.stmt(st, inner, items, in_loop=False)
+            term, ty = self.ex(body[-1].value, inner, items)
+        finally:
+            m.active.pop()
+            self.params, self.fresh_lists, self.suffix = saved
+        if isinstance(ty, tuple) and ty[0] == 'static':
+            raise self.U(n, f'{name} returns a function / a list of tuples')
+        m.inlined.add(name)
+        return term, ty
+
+    def static_call(self, ft, n, env, items):
+        """F(args) where F stands for a lambda or a bound row method handed to an expanded helper"""
+        if n.keywords or any(isinstance(x, ast.Starred) for x in n.args):
+            raise self.U(n, 'call of a function-valued parameter with keywords / starred arguments')
+        if ft[1] == 'method':
+            if len(n.args) != 1:
+                raise self.U(n, f'{ft[3]}: not called with exactly one positional argument')
+            a, at = self.ex(n.args[0], env, items)
+            if at != 'label':
+                raise self.U(n, f'{ft[3]}: argument of type {at}')
+            return self.bound(f'py_state_space.NodalStateSpaceModel_{ft[3]} C {par(ft[2])} {par(a)}', 'arrlike', items)
+        if ft[1] == 'lambda':
+            lam, closure = ft[2], ft[3]
+            if len(n.args) != len(lam.args.args):
+                raise self.U(n, 'call of a lambda with a wrong number of arguments')
+            inner = dict(closure)
+            for x, node in zip(lam.args.args, n.args):
+                if x.arg in self.m.names:
+                    raise self.U(lam, f'lambda parameter {x.arg} rebinds a module-level name')
+                inner[x.arg] = self.ex(node, env, items)           # the value computed at the call, under no new binder
+            saved = self.suffix
+            self.suffix = self.new_scope()
+            try:
+                return self.ex(lam.body, inner, items)
+            finally:
+                self.suffix = saved
+        raise self.U(n, 'call of a value that is not a function')
 
     def eval_args(self, slots, order, types, env, items):
         vals = {}
@@ -961,11 +1143,16 @@ class FnCompiler:
     def float_call(self, n, env, items):
         if not n.keywords and len(n.args) == 1:
             s = n.args[0]
-            if isinstance(s, ast.Subscript) and isinstance(s.slice, ast.Constant) and isinstance(s.slice.value, str) \
-                    and re.match(r'^[A-Za-z0-9_]+$', s.slice.value) and isinstance(s.value, ast.Attribute) and s.value.attr == 'value':
+            key = None
+            if isinstance(s, ast.Subscript) and isinstance(s.slice, ast.Constant) and isinstance(s.slice.value, str):
+                key = s.slice.value
+            elif isinstance(s, ast.Subscript) and isinstance(s.slice, ast.Name) and s.slice.id in env \
+                    and isinstance(env[s.slice.id][0], ConstLabel):
+                key = env[s.slice.id][0].const        # a parameter of an expanded helper that stands for a str constant
+            if key is not None and re.match(r'^[A-Za-z0-9_]+$', key) and isinstance(s.value, ast.Attribute) and s.value.attr == 'value':
                 c, ct = self.ex(s.value.value, env, items)
                 if ct == 'comp':
-                    return self.bound(f'vget {par(c)} "{s.slice.value}"', 'R', items)
+                    return self.bound(f'vget {par(c)} "{key}"', 'R', items)
         raise self.U(n, "float(..) that is not float(<component>.value['<key>'])")
 
     def numpy_call(self, fn, n, env, items):
